@@ -65,12 +65,20 @@ class Check(PropertyCheck):
 
         probes()
         n_acc = 0
-        while not tr.done():
-            j, p, m = gen.gen_valid_request(rng, tr)
-            tr.take(j)
-            lines.append(f"disp {j} {p} {m}")
-            n_acc += 1
-            probes()
+        n_eps = rng.choice([1, 1, 2, 3])        # later episodes on the same dispatcher, in a different order
+        for ep in range(n_eps):
+            while not tr.done():
+                j, p, m = gen.gen_valid_request(rng, tr, rng.choice(["uniform", "one_job_first", "last_job_first"]))
+                tr.take(j)
+                lines.append(f"disp {j} {p} {m}")
+                n_acc += 1
+                probes()
+                if ep < n_eps - 1 and rng.random() < 0.1:
+                    break
+            if ep < n_eps - 1:
+                lines.append("reset")
+                tr.reset()
+                probes()
         meta = {"family": family, "filter": "none" if f is None else "+".join(f) or "empty-composite",
                 "flexible": gen.is_flexible(jobs), "zero_dur": gen.has_zero(jobs), "accepted": n_acc,
                 "filter_style": rng.choice(["callable", "enum", "str", "lazy"])}
